@@ -18,6 +18,7 @@ package decode
 
 import (
 	"seehuhn.de/go/pdf"
+	"seehuhn.de/go/pdf/acroform"
 	"seehuhn.de/go/pdf/annotation"
 )
 
@@ -91,7 +92,17 @@ func PageAnnotations(c pdf.Cursor, obj pdf.Object) (refs []pdf.Reference, annots
 	// a malformed form must not break page decoding.
 	if hasWidget {
 		if m := c.Getter().GetMeta(); m != nil && m.Catalog != nil && m.Catalog.AcroForm != nil {
-			_, _ = pdf.DecodeExclusive(pdf.CursorAt(c.Extractor(), nil), m.Catalog.AcroForm, Form)
+			root := pdf.CursorAt(c.Extractor(), nil)
+			if _, isRef := m.Catalog.AcroForm.(pdf.Reference); isRef {
+				_, _ = pdf.DecodeExclusive(root, m.Catalog.AcroForm, Form)
+			} else if catRef, ok := m.Trailer["Root"].(pdf.Reference); ok {
+				// a direct /AcroForm dictionary has no reference of its own to
+				// single-flight on; use the catalog's
+				_, _ = pdf.DecodeExclusive(root, catRef,
+					func(c pdf.Cursor, _ pdf.Object, _ bool) (*acroform.InteractiveForm, error) {
+						return Form(c, m.Catalog.AcroForm, true)
+					})
+			}
 		}
 	}
 
